@@ -1,7 +1,159 @@
 import AmqModel.Model.ConnRun
-namespace AmqModel.Props.C03
-open AmqModel.Conn
+import AmqModel.Lemmas.Collector
+import AmqModel.Lemmas.ConnC07
+/-!
+# C03 — inbound messages are reassembled and delivered exactly once, intact, in order
 
-theorem placeholder : (Conn.init 1 1).dead = false := rfl
+Property theorems only; the inductions live in `AmqModel/Lemmas/Collector.lean` (stated for an
+arbitrary frame alphabet, instantiated here with `CFrame`), the lemmas about `process` in
+`AmqModel/Lemmas/ConnC07.lean`.
+-/
+namespace AmqModel.Props.C03
+open AmqModel.Conn AmqModel.Collector
+
+/-- The frames of one channel as the collector sees them. -/
+inductive CFrame where
+  | method (k : Kind)
+  | header (size : Nat) (props : Bytes)
+  | body (payload : Bytes)
+  deriving Repr, DecidableEq
+
+def cstep (s : CState) : CFrame → Res
+  | .method k => collectMethod s k
+  | .header size props => collectHeader s size props
+  | .body payload => collectBody s payload
+
+/-- Feed frames until the first protocol error; the contents completed on the way, in order, and
+    the final state (`none` after an error). -/
+def crun : CState → List CFrame → List Content × Option CState
+  | s, [] => ([], some s)
+  | s, f :: fs =>
+    match cstep s f with
+    | .unexpected => ([], none)
+    | .more s' => crun s' fs
+    | .done ct => let (cs, r) := crun .idle fs; (ct :: cs, r)
+
+/-- `CFrame` / `cstep` as an instance of the alphabet the collector lemmas are stated for. -/
+def alg : FrameAlg CFrame where
+  step := cstep
+  m := .method
+  h := .header
+  b := .body
+  step_m := fun _ _ => rfl
+  step_h := fun _ _ _ => rfl
+  step_b := fun _ _ => rfl
+  cases := fun f => by
+    cases f with
+    | method k => exact Or.inl ⟨k, rfl⟩
+    | header size props => exact Or.inr (Or.inl ⟨size, props, rfl⟩)
+    | body payload => exact Or.inr (Or.inr ⟨payload, rfl⟩)
+
+/-- `crun` is the runner of the lemma file. -/
+theorem crun_eq (s : CState) (fs : List CFrame) : crun s fs = runWith alg s fs := by
+  induction fs generalizing s with
+  | nil => rfl
+  | cons f fs ih =>
+    rw [runWith_cons]
+    show crun s (f :: fs) = match cstep s f with
+      | .unexpected => ([], none)
+      | .more s' => runWith alg s' fs
+      | .done ct => (ct :: (runWith alg .idle fs).1, (runWith alg .idle fs).2)
+    unfold crun
+    cases cstep s f with
+    | more s' => exact ih s'
+    | done ct => simp only [ih]
+    | unexpected => rfl
+
+/-- EVERY PARTITION. A content method, a header announcing `size`, then body frames whose
+    payloads add up to `size` with every proper prefix strictly shorter (so empty body frames are
+    allowed anywhere but at the end): exactly one content is produced, at the last frame, and it is
+    the method, the header's properties and the concatenation of the payloads; the collector is
+    idle again.  (`size = 0` ⇒ `parts = []`: the content is produced at the header.) -/
+theorem collector_reassembles (k : Kind) (size : Nat) (props : Bytes) (parts : List Bytes)
+    (hsum : parts.flatten.length = size)
+    (hpre : ∀ i, i < parts.length → (parts.take i).flatten.length < size) :
+    crun .idle (.method k :: .header size props :: parts.map .body)
+      = ([⟨k, props, parts.flatten⟩], some .idle) := by
+  rw [crun_eq]; exact runWith_reassembles alg k size props parts hsum hpre
+
+/-- … and nothing is produced before the last frame. -/
+theorem collector_not_early (k : Kind) (size : Nat) (props : Bytes) (parts : List Bytes)
+    (hpre : ∀ i, i ≤ parts.length → (parts.take i).flatten.length < size) :
+    (crun .idle (.method k :: .header size props :: parts.map .body)).1 = [] := by
+  rw [crun_eq]; exact runWith_not_early alg k size props parts hpre
+
+/-- NO MIS-ASSEMBLY, for arbitrary frame sequences (valid or not): every content the collector
+    ever produces is spelled out by a contiguous run of the input — its method, a header whose
+    announced size is the body length, and body frames whose payloads concatenate to the body. -/
+theorem collector_sound (fs : List CFrame) (ct : Content) (h : ct ∈ (crun .idle fs).1) :
+    ∃ (pre : List CFrame) (parts : List Bytes) (post : List CFrame),
+      fs = pre ++ (CFrame.method ct.kind :: CFrame.header ct.body.length ct.props :: parts.map CFrame.body) ++ post ∧
+      parts.flatten = ct.body := by
+  rw [crun_eq] at h; exact runWith_sound alg fs ct h
+
+/-- Successive messages come out in the order sent, each once. -/
+theorem collector_sequence (msgs : List (Kind × Bytes × List Bytes))
+    (hok : ∀ m ∈ msgs, ∀ i, i < m.2.2.length → (m.2.2.take i).flatten.length < m.2.2.flatten.length) :
+    crun .idle (msgs.flatMap fun m => .method m.1 :: .header m.2.2.flatten.length m.2.1 :: m.2.2.map .body)
+      = (msgs.map fun m => ⟨m.1, m.2.1, m.2.2.flatten⟩, some .idle) := by
+  rw [crun_eq]; exact runWith_sequence alg msgs hok
+
+/-- The slot's collector inside `process` is this collector: a header / body frame for an open
+    channel `n ≠ 0` in the steady state runs `collectHeader` / `collectBody` on slot `n`'s state. -/
+theorem process_header_uses_collector (c : Conn) (n cid size : Nat) (props dc df : Bytes) (slot : Slot)
+    (hs : c.st = .steady) (hn : n ≠ 0) (hslot : lookupN n c.slots = some slot) :
+    process c (.header n cid size props) dc df = afterCollect c n slot (collectHeader slot.coll size props) :=
+  process_header_slot hs hn hslot cid size props dc df
+
+theorem process_body_uses_collector (c : Conn) (n : Nat) (payload dc df : Bytes) (slot : Slot)
+    (hs : c.st = .steady) (hn : n ≠ 0) (hslot : lookupN n c.slots = some slot) :
+    process c (.body n payload) dc df = afterCollect c n slot (collectBody slot.coll payload) :=
+  process_body_slot hs hn hslot payload dc df
+
+/-- DISPATCH. A completed delivery goes to the queue of the consumer registered under that tag on
+    that channel — appended at its end — and nowhere else: every other consumer queue, every
+    listener queue, every reply queue, the output buffer and every other slot are untouched. -/
+theorem dispatch_delivery (c : Conn) (n : Nat) (slot : Slot) (tag : Bytes) (dtag : Nat) (red : Bool)
+    (ex rk props body : Bytes) (qid : Nat) (q : CQ)
+    (hc : lookupB tag slot.consumers = some qid) (hq : lookupN qid c.cqs = some q) (hrx : q.rxAlive = true) :
+    dispatchContent c n slot ⟨.deliver tag dtag red ex rk, props, body⟩ =
+      ({ c with cqs := setN qid { q with msgs := q.msgs ++ [.delivery n dtag red ex rk props body] } c.cqs }, none) := by
+  simp only [dispatchContent, hc, sendCons, hq, hrx, Bool.not_true, Bool.false_eq_true, if_false]
+
+/-- A completed get goes to the channel's own reply queue. -/
+theorem dispatch_get (c : Conn) (n : Nat) (slot : Slot) (dtag : Nat) (red : Bool) (ex rk props body : Bytes) (count : Nat) :
+    dispatchContent c n slot ⟨.get dtag red ex rk count, props, body⟩ =
+      sendReply c slot.lid (.getSome n dtag red ex rk count props body) := rfl
+
+/-- A returned message goes to the channel's current return listener, or is discarded (never an error). -/
+theorem dispatch_return_never_fails (c : Conn) (n : Nat) (slot : Slot) (code : Nat) (text ex rk props body : Bytes) :
+    (dispatchContent c n slot ⟨.ret code text ex rk, props, body⟩).2 = none := by
+  simp only [dispatchContent]
+  repeat' split
+  all_goals rfl
+
+/-- CHANNEL INDEPENDENCE. A frame on channel `m` leaves every other channel's slot — its
+    collector, its consumer table, its listeners — exactly as it was (connection-level frames on
+    channel 0 aside), whatever the frame and whatever state channel `m` is in. -/
+theorem other_slots_untouched (c : Conn) (f : Frame) (dc df : Bytes) (m n : Nat) (hm : m ≠ 0) (hmn : n ≠ m)
+    (hf : match f with
+      | .method ch _ _ _ => ch = m
+      | .header ch _ _ _ => ch = m
+      | .body ch _ => ch = m
+      | .heartbeat _ => True) :
+    lookupN n (process c f dc df).1.slots = lookupN n c.slots :=
+  off_process c f dc df hm (by cases f <;> exact hf) n hmn
+
+/-- NO HEAD-OF-LINE BLOCKING. Processing a content frame never blocks on a consumer or listener
+    queue, however much is queued there (only the connection-level CloseOk reply can block). -/
+theorem content_frames_never_block (c : Conn) (f : Frame) (dc df : Bytes)
+    (hf : match f with
+      | .method ch cls mid _ => ¬(ch = 0 ∧ cls = 10 ∧ mid = 51)
+      | _ => True) :
+    (process c f dc df).2 ≠ some .hang :=
+  nh_process c f dc df (by cases f <;> exact hf)
+
+example : crun .idle [.method (.deliver [116] 1 false [] [107]), .header 3 [0, 0], .body [1], .body [], .body [2, 3]]
+    = ([⟨.deliver [116] 1 false [] [107], [0, 0], [1, 2, 3]⟩], some .idle) := by decide
 
 end AmqModel.Props.C03
